@@ -7,7 +7,7 @@ of integer variables and constraints to boolean satisfiability clauses.
 Not part of the public API - use Model from cp.py instead.
 """
 
-from itertools import combinations
+from itertools import combinations, product
 from typing import TYPE_CHECKING, Any
 
 from solvor.sat import Status as SATStatus
@@ -404,22 +404,27 @@ class SATEncoder:
         max_end = max(s.ub + d for s, d in zip(starts, durations))
 
         for t in range(min_start, max_end):
-            active_lits = []
+            # Per task, the start literals that make it run at time t (at most one of them is true)
+            active: list[list[int]] = []
             active_demands = []
             for i in range(n):
-                for s in range(max(starts[i].lb, t - durations[i] + 1), min(starts[i].ub, t) + 1):
-                    if s in starts[i].bool_vars and s <= t < s + durations[i]:
-                        active_lits.append(starts[i].bool_vars[s])
-                        active_demands.append(demands[i])
+                lits = [
+                    starts[i].bool_vars[s]
+                    for s in range(max(starts[i].lb, t - durations[i] + 1), min(starts[i].ub, t) + 1)
+                    if s in starts[i].bool_vars
+                ]
+                if lits:
+                    active.append(lits)
+                    active_demands.append(demands[i])
 
-            if not active_lits:
-                continue
+            if active:
+                self._encode_capacity_constraint(active, active_demands, capacity)
 
-            if len(active_lits) <= 10:
-                self._encode_capacity_constraint(active_lits, active_demands, capacity)
+    def _encode_capacity_constraint(self, lits: list[list[int]], demands: list[int], capacity: int) -> None:
+        """Forbid every minimal set of tasks whose demands exceed capacity from running together.
 
-    def _encode_capacity_constraint(self, lits: list[int], demands: list[int], capacity: int) -> None:
-        """Encode sum constraint: if all lits true, demands sum must <= capacity."""
+        lits[i] holds the alternative literals under which task i is running.
+        """
         n = len(lits)
         for size in range(1, n + 1):
             for subset in combinations(range(n), size):
@@ -433,7 +438,8 @@ class SATEncoder:
                         if not is_minimal:
                             break
                     if is_minimal:
-                        self._clauses.append([-lits[i] for i in subset])
+                        for choice in product(*(lits[i] for i in subset)):
+                            self._clauses.append([-lit for lit in choice])
 
     # Constraint dispatcher
 
